@@ -94,6 +94,10 @@ class BoundArgs:
         self.arguments = arguments
 
 
+class DequeVal(list):
+    """collections.deque: a list with operations at the left end"""
+
+
 class WeakDict(dict):
     """weakref.Weak*Dictionary: a mapping that does not keep its values/keys alive"""
 
@@ -719,6 +723,17 @@ def value_attr(I, obj, name):
             return Builtin("popitem", lambda: obj.popitem())
         if name == "fromkeys":
             return Builtin("fromkeys", lambda ks, v=None: {_key(k): v for k in iterate(I, ks)})
+    if isinstance(obj, DequeVal):
+        if name == "popleft":
+            def popleft():
+                if not obj:
+                    raise SymRaise("IndexError", "pop from an empty deque")
+                return obj.pop(0)
+            return Builtin(name, popleft)
+        if name == "appendleft":
+            return Builtin(name, lambda x: obj.insert(0, x))
+        if name == "extendleft":
+            return Builtin(name, lambda it: [obj.insert(0, x) for x in iterate(I, it)] and None)
     if isinstance(obj, list):
         if name == "append":
             return Builtin("append", lambda x: obj.append(x))
@@ -1468,6 +1483,10 @@ def external(I, dotted):
                 raise AnalysisError("namedtuple with symbolic field names")
             return NTupleClass(name, fields, tuple(iterate(I, defaults)) if defaults is not None else ())
         return Builtin(dotted, namedtuple)
+    if dotted == "collections.deque":
+        return Builtin(dotted, lambda it=(), maxlen=None: DequeVal(iterate(I, it)))
+    if dotted in ("collections.defaultdict",):
+        raise AnalysisError("collections.defaultdict is not modelled")
     if dotted in ("collections.OrderedDict",):
         return I.builtins["dict"]
     if dotted in ("functools.lru_cache", "functools.cache", "functools.wraps", "functools.partial", "functools.reduce"):
